@@ -132,8 +132,9 @@ fn run_script(s: &Script) -> Vec<Ev> {
 					}
 					Poll::Pending => rec(&log, "poll_ret", who, 0),
 				}
-				if sc.spurious && polls == 1 {
-					spin(xorshift(&mut rng) % 2000);
+				// spurious polls: several more, close together, around the moment the flag is raised
+				if sc.spurious && polls <= 6 {
+					spin(xorshift(&mut rng) % 400);
 					continue;
 				}
 				// park until the waker has been called (or give up: a lost wake-up)
